@@ -39,6 +39,7 @@ PROBES = ['multi_chunk_read', 'overlap_iteration_served', 'tensor_name_read',
           'stride_change', 'checkpoint_read', 'phase_offset_outputs',
           'checkpoint_arrays_compared', 'split_per_it_read',
           'io_fault_fired', 'io_fault_raise_accepted',
+          'second_simulation_with_the_same_name',
           'read_after_io_fault_checked']
 COMPONENTS = {
     'aurel.reading (iterations, get_content, read_data/read_ET_data, '
@@ -158,6 +159,19 @@ def generate(rng, tier):
                                                  (4, 2), (6, 1), (9, 1)]),
                               'when': gf.weighted([('before', 3),
                                                    ('after', 1)])}
+    # a second simulation with the same NAME under another root, read in
+    # between (same layout and values, other times)
+    gt = rng.child('twin')
+    if gt.chance(0.12):
+        out = []
+        for o in ops:
+            out.append(o)
+            if o['op'] == 'read' and not o.get('chk') and gt.chance(0.6):
+                t = copy.deepcopy(o)
+                t.pop('fault', None)
+                t['twin'] = True
+                out.append(t)
+        ops = out
     return {'config': cfg, 'enum': enum, 'ops': ops}
 
 
@@ -216,6 +230,10 @@ def simplify(run):
                                      etsim.AUREL_TENSORS.get(v, ['?']))]
             if ok:
                 yield c
+    if any(o.get('twin') for o in run['ops']):
+        c = copy.deepcopy(run)
+        c['ops'] = [o for o in c['ops'] if not o.get('twin')]
+        yield c
     for i, o in enumerate(run['ops']):
         if o.get('fault'):
             c = copy.deepcopy(run); del c['ops'][i]['fault']; yield c
@@ -273,6 +291,14 @@ def _execute(run, plan):
         fault('numbering_permuted')
     overlap = any(len(v) > 1 for v in sim.truth.values())
     cat = iosim.Catalogued()
+    param2 = None
+    if any(o.get('twin') for o in run['ops']):
+        cfg2 = copy.deepcopy(cfg)
+        cfg2['simpath'] = 'OTHER_ROOT/' + cfg['simpath']
+        cfg2['t0'] = cfg.get('t0', 0.0) + 1000.0
+        etsim.ETSim(cfg2, h5py).run_all()
+        param2 = etsim.param_of(cfg2)
+        probe('second_simulation_with_the_same_name')
 
     with seams_fs.enumeration_order(run['enum']['mode'],
                                     run['enum']['seed']) as order:
@@ -313,6 +339,20 @@ def _execute(run, plan):
                 continue
             if op['op'] == 'join':
                 _do_join(sim, cfg, op, opi, rd, viol, probe, compared, tr)
+                continue
+            if op.get('twin'):
+                # the other simulation of the same name is read in between;
+                # what it returns is C12's subject, here it only must not
+                # disturb the reads of the first one
+                try:
+                    aurel.read_data(param2, it=list(op['it']),
+                                    vars=list(op['vars']), rl=op['rl'],
+                                    restart=op['restart'],
+                                    split_per_it=bool(op.get('split')),
+                                    verbose=False, skip_last=False)
+                except Exception:  # noqa: BLE001
+                    pass
+                tr.event('read_twin', op=op)
                 continue
             # ---------------- read --------------------------------------
             rl = op['rl']
